@@ -328,6 +328,18 @@ pub fn c20_table(seed: u64, thorough: bool, out: &mut dyn Write) -> Stats {
                 }
             }
         }
+        // a receiver of another kind in front of the complete, well-kinded argument list: the receiver must
+        // still be the value bound to the receiver parameter (never skipped in favour of the first argument)
+        if k >= 1 {
+            for other in &names {
+                if *other == pref[0] {
+                    continue;
+                }
+                let mut a: Vec<&str> = vec![other];
+                a.extend(pref.iter());
+                emit(call(f, &a, true), None, &[], &mut st, out);
+            }
+        }
         // an argument that is an expression with an effect / an error / an identifier
         if k >= 1 {
             let mut a: Vec<&str> = pref.clone();
@@ -349,6 +361,7 @@ pub fn c20_table(seed: u64, thorough: bool, out: &mut dyn Write) -> Stats {
     }
     for f in binary_b {
         for x in &names {
+            emit(format!("{}.{}(ks, ks)", x, f), None, &[], &mut st, out);
             for y in &names {
                 emit(format!("{}.{}({})", x, f, y), Some(format!("{}({}, {})", f, x, y)), &[], &mut st, out);
             }
